@@ -5,7 +5,8 @@ ID = 'C13'
 PROFILES = ['debug']
 THEOREMS = ['C13_table_rt', 'C13_table_ents', 'C13_entry_strict', 'C13_entry_complete', 'C13_entry_rejects',
             'C13_table_rejects', 'C13_be_roundtrip', 'C13_stream_rt', 'C13_stream_rt_implicit', 'C13_stream_rejects',
-            'C13_stream_rejects_type', 'C13_stream_rejects_truncated', 'C13_dict_no_panic']
+            'C13_stream_rejects_type', 'C13_stream_rejects_truncated', 'C13_dict_no_panic', 'C13_table_total',
+            'C13_stream_total', 'C13_usize_width_exact']
 RULE = ('tables: entry lists of 0..40 entries (both kinds, boundary field values) x every partition into subsections '
         'for <= 6 entries (random beyond) x the 3 terminators per entry x header/EOL/comment whitespace variants x tails; '
         'every single-field corruption of a legal table (non-digit, 9/11 digits, gen > 65535, bad type, bad terminator, '
